@@ -117,7 +117,7 @@ Proof.
 Qed.
 
 (** the part of the codec universe covered by the round-trip theorem: all of it
-    except the JSON / BigQuery codecs, slices over pointer / null / BQ elements
+    except the BigQuery codec, scalar slices over pointer / null / BQ elements
     (findings D24, nil elements) and the repeated forms outside struct fields (D12) *)
 Definition topb (c : codec) : bool := match c with CSliceProto _ | CMapProto _ _ => false | _ => true end.
 Fixpoint frag (c : codec) : bool :=
@@ -129,6 +129,7 @@ Fixpoint frag (c : codec) : bool :=
   | CSliceFix c' => match c' with CF32 | CF64 => true | _ => false end
   | CSliceLen c' | CSliceProto c' => frag c' && topb c'
   | CMap k v | CMapProto k v => frag k && frag v && topb k && topb v
+  | CJMap | CJArr => true
   | _ => false
   end.
 
